@@ -127,6 +127,7 @@ type Status struct {
 	Error   string   `json:"error,omitempty"`
 	Files   []string `json:"files,omitempty"`
 	Deps    []string `json:"deps,omitempty"` // corpus files this one imports (same runtime)
+	Pkg     string   `json:"pkg"`            // directory / Go package the file belongs to (several files may share one)
 }
 
 func cmdFM(args []string) {
@@ -157,7 +158,7 @@ func cmdFM(args []string) {
 			if *opts != "" {
 				param += "," + *opts
 			}
-			st := Status{Runtime: rtn, File: spec.Name, Opts: param, Deps: spec.Deps}
+			st := Status{Runtime: rtn, File: spec.Name, Opts: param, Deps: spec.Deps, Pkg: spec.Pkg()}
 			resp, err := runPlugin(*plugin, corpus.BuildWithDeps(spec, rt), param)
 			switch {
 			case err != nil:
